@@ -19,7 +19,12 @@ PID = 'C08'
 LEAN_TARGETS = ['CfVerif.Props.C08']
 PROPS_MODULES = ['CfVerif.Props.C08']
 DRIVER = 'Driver/C08.lean'
-REQUIRED_THEOREMS = ['CfVerif.C08.header_lossless', 'CfVerif.C08.hover_decodes', 'CfVerif.C08.setpoint_decodes']
+REQUIRED_THEOREMS = ['CfVerif.C08.' + t for t in (
+    'header_lossless', 'emit_decodes', 'emit_port_channel_size', 'lopo_payload_decodes', 'thrust_out_of_range_raises',
+    'thrust_float_never_sent', 'int16_overflow_raises', 'f64ToInt_trunc', 'compress_quaternion_layout', 'iLargest_is_max',
+    'bsMask_testBit', 'lh_persist_invalid_raises', 'lh_persist_live_counterexample', 'neg_int_zero',
+    'gen_setpoint', 'gen_hover', 'gen_fullState', 'gen_hlGoTo', 'gen_hlSpiral', 'gen_lhPersist', 'gen_lhPersist_detail', 'gen_packet',
+    'gen_compress_quaternion')]
 TRUSTED = ['harness/corr/c08.py extractor + correspondence + Python twin of the firmware decoder',
            'Spec/C08.lean: the firmware packet layouts, type numbers, version gates and sign conventions (written from the firmware, not from cflib)',
            "binary64->binary32 conversion inside struct.pack('f') and all double arithmetic (x-mode mix, v*1000, quaternion "
@@ -342,7 +347,7 @@ def _stub_class():
 
 
 def run_real(ver, fn):
-    """call fn(cf) on a fresh stub; canonical reply string"""
+    """call fn(cf) on a fresh stub; returns ('ok', [(header, bytes)...]) or ('err', enum)"""
     import contextlib
     import io
     import warnings
@@ -353,14 +358,20 @@ def run_real(ver, fn):
             fn(cf)
     except Exception as e:
         if cf._send_lock.locked():
-            return 'err lock-leaked:' + exc_enum(e)
+            return ('err', 'lock-leaked:' + exc_enum(e))
         if cf.link.sent:
-            return 'err after-send:' + exc_enum(e)
-        return 'err ' + exc_enum(e)
-    return 'ok ' + (';'.join('%d:%s' % (h, hexs(d)) for h, d in cf.link.sent) or '-')
+            return ('err', 'after-send:' + exc_enum(e))
+        return ('err', exc_enum(e))
+    return ('ok', list(cf.link.sent))
 
 
-# ---- argument encoding ------------------------------------------------------------------------------
+def show_real(r):
+    if r[0] == 'err':
+        return 'err ' + r[1]
+    return 'ok ' + (';'.join('%d:%s' % (h, hexs(d)) for h, d in r[1]) or '-')
+
+
+# ---- argument encoding for the model ------------------------------------------------------------------
 def conv(x):
     try:
         return str(f32bits(x))
@@ -390,346 +401,797 @@ def vec3(v):
     return ','.join(scaled(x) for x in v)
 
 
-def quat_oracle(quat):
+def quat_norm(quat):
     """the double arithmetic of compress_quaternion (normalisation, scaling) - outside the model"""
     import numpy as np
     with np.errstate(all='ignore'):
         quat_n = np.array(quat) / np.linalg.norm(quat)
         M_SQRT1_2 = 1.0 / np.sqrt(2)
-        return ','.join('%d:%d' % (f64bits(float(quat_n[i])), f64bits(float(((1 << 9) - 1) * (abs(quat_n[i]) / M_SQRT1_2) + 0.5)))
-                        for i in range(4))
+        return [(float(quat_n[i]), float(((1 << 9) - 1) * (abs(quat_n[i]) / M_SQRT1_2) + 0.5)) for i in range(4)]
+
+
+def quat_oracle(quat):
+    return ','.join('%d:%d' % (f64bits(q), f64bits(t)) for q, t in quat_norm(quat))
 
 
 def intlist(l):
     return ','.join(str(int(x)) for x in l) or '-'
 
 
+# ---------------------------------------------------------------------------------------------------
+# Python twin of Spec/C08.lean (firmware decoder), written from the firmware's packed structs; it is cross-checked
+# against the Lean `Fw.decode` / `Fw.decodeLpp` on every packet of every run (correspond) and used by search().
+_CT = {'uint8_t': (1, False), 'bool': (1, False), 'uint16_t': (2, False), 'uint32_t': (4, False), 'int16_t': (2, True), 'float': (4, False)}
+
+
+def c_unpack(layout, data):
+    """exact-size unpack of a packed little-endian C struct; floats are returned as bit patterns"""
+    if sum(_CT[t][0] for t in layout) != len(data):
+        return None
+    out, off = [], 0
+    for t in layout:
+        n, signed = _CT[t]
+        out.append(int.from_bytes(data[off:off + n], 'little', signed=signed))
+        off += n
+    return out
+
+
+def fneg32(b):
+    return b ^ 0x80000000
+
+
+def quat_fields(comp):
+    l = comp >> 30
+    fields = []
+    for i in (3, 2, 1, 0):
+        if i != l:
+            fields.append('%d/%d/%d' % (i, (comp >> 9) & 1, comp & 511))
+            comp >>= 10
+    return '%d:%s' % (l, ','.join(fields))
+
+
+F4 = ['float'] * 4
+
+
+def fw_decode(ver, header, data):
+    port, chan = (header >> 4) & 15, header & 3
+    d = bytes(data)
+
+    def fmt(name, vals):
+        return name + ''.join(' %d' % v for v in vals)
+    if (port, chan) == (3, 0):                                       # crtp_commander_rpyt.c: struct CommanderCrtpLegacyValues
+        v = c_unpack(['float', 'float', 'float', 'uint16_t'], d)
+        return fmt('rpyt', v) if v else 'none'
+    if (port, chan) == (7, 0):                                       # crtp_commander_generic.c
+        if not d:
+            return 'none'
+        t, r = d[0], d[1:]
+        if t == 0:
+            return 'stop' if not r else 'none'
+        if t in (1, 2, 5, 7, 8, 9, 10):
+            if t in (8, 9, 10) and ver < 9:
+                return 'none'
+            v = c_unpack(F4, r)
+            if not v:
+                return 'none'
+            if t == 1:
+                v[3] = fneg32(v[3])          # velocityWorldTypeLegacy: yawrate = -values->yawrate
+            if t in (2, 5):
+                v[2] = fneg32(v[2])          # zDistanceTypeLegacy / hoverTypeLegacy
+            return fmt({1: 'velocityWorld', 8: 'velocityWorld', 2: 'zDistance', 9: 'zDistance', 5: 'hover', 10: 'hover', 7: 'position'}[t], v)
+        if t == 6:                                                   # struct fullStatePacket_s
+            v = c_unpack(['int16_t'] * 9 + ['uint32_t'] + ['int16_t'] * 3, r)
+            if not v:
+                return 'none'
+            return 'fullState ' + ' '.join(str(x) for x in v[:9]) + ' ' + quat_fields(v[9]) + ' ' + ' '.join(str(x) for x in v[10:])
+        return 'none'
+    if (port, chan) == (7, 1):
+        if d and d[0] == 0:                                          # metaNotifySetpointsStop
+            v = c_unpack(['uint32_t'], d[1:])
+            return fmt('notifySetpointsStop', v) if v else 'none'
+        return 'none'
+    if (port, chan) == (8, 0):                                       # crtp_commander_high_level.c
+        if not d:
+            return 'none'
+        c, r = d[0], d[1:]
+        table = {0: ('hlSetGroupMask', ['uint8_t']), 3: ('hlStop', ['uint8_t']),
+                 4: ('hlGoTo', ['uint8_t', 'uint8_t'] + ['float'] * 5),
+                 5: ('hlStartTrajectory', ['uint8_t'] * 4 + ['float']),
+                 6: ('hlDefineTrajectory', ['uint8_t', 'uint8_t', 'uint8_t', 'uint32_t', 'uint8_t']),
+                 7: ('hlTakeoff2', ['uint8_t', 'float', 'float', 'bool', 'float']),
+                 8: ('hlLand2', ['uint8_t', 'float', 'float', 'bool', 'float']),
+                 11: ('hlSpiral', ['uint8_t'] * 3 + ['float'] * 5), 12: ('hlGoTo2', ['uint8_t'] * 3 + ['float'] * 5)}
+        if c not in table or (c in (11, 12) and ver < 8):
+            return 'none'
+        v = c_unpack(table[c][1], r)
+        if not v:
+            return 'none'
+        if c in (7, 8):
+            v[3] = 1 if v[3] else 0
+        return fmt(table[c][0], v)
+    if (port, chan) == (6, 0):                                       # crtp_localization_service.c: struct CrtpExtPosition
+        v = c_unpack(['float'] * 3, d)
+        return fmt('extPosition', v) if v else 'none'
+    if (port, chan) == (6, 1):
+        if not d:
+            return 'none'
+        t, r = d[0], d[1:]
+        if t == 2:
+            return 'shortLpp %d %s' % (r[0], hexs(r[1:])) if r else 'none'
+        if t == 3:
+            return 'emergencyStop' if not r else 'none'
+        if t == 4:
+            return 'emergencyStopWatchdog' if not r else 'none'
+        if t == 8:
+            v = c_unpack(['float'] * 7, r)
+            return fmt('extPose', v) if v else 'none'
+        if t == 11:
+            v = c_unpack(['uint16_t', 'uint16_t'], r)
+            return fmt('lhPersist', v) if v else 'none'
+        return 'none'
+    if (port, chan) == (13, 0):                                      # platformservice.c
+        if len(d) == 2 and d[0] == 0:
+            return 'setContinousWave %d' % (1 if d[1] else 0)
+        if len(d) == 2 and d[0] == 1:
+            return 'armSystem %d' % (1 if d[1] else 0)
+        if len(d) == 1 and d[0] == 2:
+            return 'recoverSystem'
+        return 'none'
+    return 'none'
+
+
+def lpp_decode(payload):
+    d = bytes(payload)
+    if not d:
+        return 'none'
+    t, r = d[0], d[1:]
+    if t == 1:
+        v = c_unpack(['float'] * 3, r)
+        return 'position %d %d %d' % tuple(v) if v else 'none'
+    if t in (2, 3):
+        v = c_unpack(['uint8_t'], r)
+        return ('reboot %d' if t == 2 else 'mode %d') % v[0] if v else 'none'
+    return 'none'
+
+
+# ---------------------------------------------------------------------------------------------------
+# Python twin of `expected?` (Proofs/C08Spec.lean): the command the ARGUMENTS denote, or Unrep
+class Unrep(Exception):
+    pass
+
+
+def x_f32(x):
+    try:
+        return f32bits(x)
+    except (OverflowError, struct.error):
+        raise Unrep('float field')
+
+
+def x_uint(n, x):
+    if isinstance(x, (bool, int)) and 0 <= int(x) < 256 ** n:
+        return int(x)
+    raise Unrep('uint%d field' % (8 * n))
+
+
+def x_fix16(x):
+    try:
+        v = int(x * 1000)
+    except (ValueError, OverflowError):
+        raise Unrep('fixed point')
+    if -32768 <= v <= 32767:
+        return v
+    raise Unrep('int16 field')
+
+
+def is_int0(x):
+    return isinstance(x, (bool, int)) and int(x) == 0
+
+
+def x_negated(x, firmware_flips_back):
+    """field of an argument the code sends as -x.  Returns the pattern the decoder twin reports: the wire pattern (RPYT
+    pitch) or the value the firmware uses after its own flip (legacy yaw rates).  For the Python int 0 the wire carries
+    +0.0 (not -0.0): the same number (side condition Call.Pre / theorem neg_int_zero)."""
+    b = x_f32(x)
+    if firmware_flips_back:
+        return 0x80000000 if is_int0(x) else b
+    return 0 if is_int0(x) else fneg32(b)
+
+
+TWO_PI = 6.283185307179586
+
+
+def expected(ver, name, a):
+    """canonical text of the firmware command the arguments denote; 'nothing' if the call must not send;
+    raises Unrep when some argument is not representable"""
+    def fmt(nm, vals):
+        return nm + ''.join(' %d' % v for v in vals)
+    if name == 'setpoint':
+        xm, roll, pitch, yaw, thrust = a
+        if xm:
+            roll, pitch = 0.707 * (roll - pitch), 0.707 * (roll + pitch)
+        return fmt('rpyt', [x_f32(roll), x_negated(pitch, False), x_f32(yaw), x_uint(2, thrust)])
+    if name == 'notifyStop':
+        return fmt('notifySetpointsStop', [x_uint(4, a[0])])
+    if name == 'stopSetpoint':
+        return 'stop'
+    if name == 'velocityWorld':
+        return fmt('velocityWorld', [x_f32(a[0]), x_f32(a[1]), x_f32(a[2]), x_negated(a[3], True) if ver <= 8 else x_f32(a[3])])
+    if name in ('zdistance', 'hover'):
+        return fmt({'zdistance': 'zDistance', 'hover': 'hover'}[name],
+                   [x_f32(a[0]), x_f32(a[1]), x_negated(a[2], True) if ver <= 8 else x_f32(a[2]), x_f32(a[3])])
+    if name == 'position':
+        return fmt('position', [x_f32(v) for v in a])
+    if name == 'hlGroupMask':
+        return fmt('hlSetGroupMask', [x_uint(1, a[0])])
+    if name in ('hlTakeoff', 'hlLand'):
+        h, d, gm, yaw = a
+        return fmt({'hlTakeoff': 'hlTakeoff2', 'hlLand': 'hlLand2'}[name],
+                   [x_uint(1, gm), x_f32(h), 0 if yaw is None else x_f32(yaw), 1 if yaw is None else 0, x_f32(d)])
+    if name == 'hlStop':
+        return fmt('hlStop', [x_uint(1, a[0])])
+    if name == 'hlGoTo':
+        x, y, z, yaw, d, rel, lin, gm = a
+        if ver < 8:
+            return fmt('hlGoTo', [x_uint(1, gm), x_uint(1, rel)] + [x_f32(v) for v in (x, y, z, yaw, d)])
+        return fmt('hlGoTo2', [x_uint(1, gm), x_uint(1, rel), x_uint(1, lin)] + [x_f32(v) for v in (x, y, z, yaw, d)])
+    if name == 'hlSpiral':
+        angle, r0, rf, asc, d, sw, cw, gm = a
+        if ver < 8:
+            return 'nothing'
+        phi = f32bits(TWO_PI) if angle > TWO_PI else f32bits(-TWO_PI) if angle < -TWO_PI else x_f32(angle)
+        return fmt('hlSpiral', [x_uint(1, gm), x_uint(1, sw), x_uint(1, cw), phi, 0 if r0 < 0 else x_f32(r0), 0 if rf < 0 else x_f32(rf),
+                                x_f32(asc), x_f32(d)])
+    if name == 'hlStartTraj':
+        tid, ts, rel, rev, gm = a
+        return fmt('hlStartTrajectory', [x_uint(1, gm), x_uint(1, rel), x_uint(1, rev), x_uint(1, tid), x_f32(ts)])
+    if name == 'hlDefineTraj':
+        tid, off, n, ty = a
+        return fmt('hlDefineTrajectory', [x_uint(1, tid), 1, x_uint(1, ty), x_uint(4, off), x_uint(1, n)])
+    if name in ('extpos', 'extposWrap'):
+        return fmt('extPosition', [x_f32(v) for v in a])
+    if name in ('extpose', 'extposeWrap'):
+        return fmt('extPose', [x_f32(v) for v in a])
+    if name == 'shortLpp':
+        dest, data = a
+        if len(data) + 2 > 30:
+            raise Unrep('payload too large')
+        return 'shortLpp %d %s' % (x_uint(1, dest), hexs(data))
+    if name == 'emergencyStop':
+        return 'emergencyStop'
+    if name == 'emergencyWatchdog':
+        return 'emergencyStopWatchdog'
+    if name == 'lhPersist':
+        masks = []
+        for l in a:
+            if any(not (0 <= b <= 15) for b in l):
+                raise Unrep('base station id')
+            masks.append(sum(1 << b for b in set(l)))
+        return fmt('lhPersist', masks)
+    if name in ('contWave', 'arming'):
+        return '%s %d' % ({'contWave': 'setContinousWave', 'arming': 'armSystem'}[name], 1 if x_uint(1, a[0]) else 0)
+    if name == 'crashRecovery':
+        return 'recoverSystem'
+    if name == 'lopoPosition':
+        return 'shortLpp %d LPP position %d %d %d' % (x_uint(1, a[0]), x_f32(a[1]), x_f32(a[2]), x_f32(a[3]))
+    if name in ('lopoReboot', 'lopoMode'):
+        return 'shortLpp %d LPP %s %d' % (x_uint(1, a[0]), {'lopoReboot': 'reboot', 'lopoMode': 'mode'}[name], x_uint(1, a[1]))
+    raise KeyError(name)
+
+
+def expected_fullstate_check(a, decoded):
+    """full state: fixed-point fields exactly int(x*1000); the quaternion fields, decompressed as the firmware does,
+    must reproduce the caller's (normalised) orientation up to the 9-bit resolution (and the q ~ -q sign).
+    Returns None if fine, 'unrep' if some argument is unrepresentable, else a description of the mismatch."""
+    import math
+    pos, vel, acc, quat, rates = a
+    try:
+        want = [x_fix16(x) for x in list(pos) + list(vel) + list(acc)]
+        wantr = [x_fix16(x) for x in rates]
+    except Unrep:
+        return 'unrep'
+    qs = [float(x) for x in quat]
+    if not all(math.isfinite(x) for x in qs):
+        return 'unrep'
+    n2 = math.fsum(x * x for x in qs)
+    if not (1e-200 < n2 < 1e200):
+        return 'unrep'
+    if decoded is None:
+        return 'not sent'
+    w = decoded.split(' ')
+    if w[0] != 'fullState' or len(w) != 14:
+        return 'decoded as ' + decoded
+    if [int(x) for x in w[1:10]] != want or [int(x) for x in w[11:14]] != wantr:
+        return 'fixed-point fields %s %s, wanted %s %s' % (w[1:10], w[11:14], want, wantr)
+    l, fs = w[10].split(':')
+    l = int(l)
+    qd = [0.0] * 4
+    ss = 0.0
+    for f in fs.split(','):
+        i, nb, m = (int(x) for x in f.split('/'))
+        qd[i] = (m / 511.0) / math.sqrt(2) * (-1 if nb else 1)
+        ss += qd[i] * qd[i]
+    qd[l] = math.sqrt(max(0.0, 1.0 - ss))
+    nrm = math.sqrt(n2)
+    qn = [x / nrm for x in qs]
+    if qn[l] < 0:
+        qn = [-x for x in qn]
+    err = max(abs(x - y) for x, y in zip(qd, qn))
+    if err > 3e-3:
+        return 'decompressed quaternion %s differs from normalised argument %s by %g' % (qd, qn, err)
+    return None
+
+
+# ---- the real API calls ----------------------------------------------------------------------------
+def call_real(name, a):
+    """thunk cf -> None performing the API call"""
+    if name == 'setpoint':
+        def f(cf):
+            cf.commander.set_client_xmode(a[0])
+            cf.commander.send_setpoint(a[1], a[2], a[3], a[4])
+        return f
+    c = {'notifyStop': lambda cf: cf.commander.send_notify_setpoint_stop(*a),
+         'stopSetpoint': lambda cf: cf.commander.send_stop_setpoint(),
+         'velocityWorld': lambda cf: cf.commander.send_velocity_world_setpoint(*a),
+         'zdistance': lambda cf: cf.commander.send_zdistance_setpoint(*a),
+         'hover': lambda cf: cf.commander.send_hover_setpoint(*a),
+         'fullState': lambda cf: cf.commander.send_full_state_setpoint(list(a[0]), list(a[1]), list(a[2]), list(a[3]), a[4][0], a[4][1], a[4][2]),
+         'position': lambda cf: cf.commander.send_position_setpoint(*a),
+         'hlGroupMask': lambda cf: cf.high_level_commander.set_group_mask(*a),
+         'hlTakeoff': lambda cf: cf.high_level_commander.takeoff(a[0], a[1], group_mask=a[2], yaw=a[3]),
+         'hlLand': lambda cf: cf.high_level_commander.land(a[0], a[1], group_mask=a[2], yaw=a[3]),
+         'hlStop': lambda cf: cf.high_level_commander.stop(*a),
+         'hlGoTo': lambda cf: cf.high_level_commander.go_to(a[0], a[1], a[2], a[3], a[4], relative=a[5], linear=a[6], group_mask=a[7]),
+         'hlSpiral': lambda cf: cf.high_level_commander.spiral(a[0], a[1], a[2], a[3], a[4], sideways=a[5], clockwise=a[6], group_mask=a[7]),
+         'hlStartTraj': lambda cf: cf.high_level_commander.start_trajectory(a[0], a[1], relative=a[2], reversed=a[3], group_mask=a[4]),
+         'hlDefineTraj': lambda cf: cf.high_level_commander.define_trajectory(a[0], a[1], a[2], a[3]),
+         'extpos': lambda cf: cf.loc.send_extpos(list(a)),
+         'extposWrap': lambda cf: cf.extpos.send_extpos(*a),
+         'extpose': lambda cf: cf.loc.send_extpose(list(a[:3]), list(a[3:])),
+         'extposeWrap': lambda cf: cf.extpos.send_extpose(*a),
+         'shortLpp': lambda cf: cf.loc.send_short_lpp_packet(a[0], a[1]),
+         'emergencyStop': lambda cf: cf.loc.send_emergency_stop(),
+         'emergencyWatchdog': lambda cf: cf.loc.send_emergency_stop_watchdog(),
+         'lhPersist': lambda cf: cf.loc.send_lh_persist_data_packet(list(a[0]), list(a[1])),
+         'contWave': lambda cf: cf.platform.set_continous_wave(*a),
+         'arming': lambda cf: cf.platform.send_arming_request(*a),
+         'crashRecovery': lambda cf: cf.platform.send_crash_recovery_request(),
+         'lopoPosition': lambda cf: cf.lopo.set_position(a[0], list(a[1:])),
+         'lopoReboot': lambda cf: cf.lopo.reboot(*a),
+         'lopoMode': lambda cf: cf.lopo.set_mode(*a)}
+    return c[name]
+
+
+def model_line(ver, name, a):
+    """request line for Driver/C08.lean; raises OverflowError when the double arithmetic that is outside the model
+    (x-mode mix, x*1000) itself raises for huge ints"""
+    if name == 'setpoint':
+        xm, roll, pitch, yaw, thrust = a
+        mr, mp = 0.707 * (roll - pitch), 0.707 * (roll + pitch)       # the x-mode double arithmetic (outside the model)
+        return '%d setpoint %d %s %s %s %s %s %s' % (ver, xm, num(roll), num(pitch), num(mr), num(mp), num(yaw), num(thrust))
+    if name == 'fullState':
+        return '%d fullState %s %s %s %s %s' % (ver, vec3(a[0]), vec3(a[1]), vec3(a[2]), quat_oracle(a[3]), vec3(a[4]))
+    if name in ('hlTakeoff', 'hlLand'):
+        return '%d %s %s %s %s %s' % (ver, name, num(a[0]), num(a[1]), num(a[2]), optnum(a[3]))
+    if name == 'shortLpp':
+        return '%d shortLpp %s %s' % (ver, num(a[0]), hexs(a[1]))
+    if name == 'lhPersist':
+        return '%d lhPersist %s %s' % (ver, intlist(a[0]), intlist(a[1]))
+    return ' '.join(['%d' % ver, name] + [num(v) for v in a])
+
+
 # ---- value pools ------------------------------------------------------------------------------------
 F32_MAX = 3.4028234663852886e38
 FLOAT_SPECIAL = [0.0, -0.0, 1.0, -1.0, 0.5, -0.25, float('inf'), float('-inf'), float('nan'), -float('nan'),
-                 F32_MAX, -F32_MAX, 3.4028235677973362e38, 3.4028235677973366e38, -3.4028235677973366e38, 1e39, -1e39, 1e308,
-                 1.401298464324817e-45, -1.401298464324817e-45, 7e-46, 1e-320, 5e-324, 1.1754943508222875e-38,
-                 0.1, -0.1, 3.141592653589793, 6.283185307179586, -6.283185307179586, 6.283185307179587, -6.283185307179587,
-                 6.28318530717958, 65535.0, 65536.0, 32.767, 32.768, -32.768, -32.769, 1e-3]
-INT_AS_FLOAT = [0, 1, -1, 2, 7, -30, 1000, 16777217, 2 ** 127, 2 ** 128, -2 ** 128, 10 ** 40, 10 ** 400, True, False]
-INT_FIELD = [0, 1, 2, 3, 7, 15, 16, 127, 128, 254, 255, 256, 257, -1, -128, -129, 32767, 32768, 65535, 65536, 65537,
-             2 ** 31 - 1, 2 ** 31, 2 ** 32 - 1, 2 ** 32, 2 ** 64, -2 ** 31, True, False]
+                 F32_MAX, -F32_MAX, 3.4028235677973362e38, 1.401298464324817e-45, -1.401298464324817e-45, 7e-46, 1e-320, 5e-324,
+                 1.1754943508222875e-38, 0.1, -0.1, 3.141592653589793, 6.283185307179586, -6.283185307179586, 6.283185307179587,
+                 -6.283185307179587, 6.28318530717958, 65535.0, 65536.0, 32.767, 32.768, -32.768, -32.769, 1e-3]
+FLOAT_UNREP = [3.4028235677973366e38, -3.4028235677973366e38, 1e39, -1e39, 1e308, 2 ** 128, -2 ** 128, 10 ** 40, 10 ** 400]
+INT_AS_FLOAT = [0, 1, -1, 2, 7, -30, 1000, 16777217, 2 ** 127, True, False]
+INT_FIELD_EDGE = [0, 1, 2, 3, 7, 15, 16, 127, 128, 254, 255, 256, 257, -1, -128, -129, 32767, 32768, 65535, 65536, 65537,
+                  2 ** 31 - 1, 2 ** 31, 2 ** 32 - 1, 2 ** 32, 2 ** 64, -2 ** 31, True, False]
 VERSIONS = [-1, 0, 1, 5, 6, 7, 8, 9, 10, 11, 255]
 
 
-def rfloat(rng):
-    r = rng.random()
-    if r < 0.22:
-        return rng.choice(FLOAT_SPECIAL)
-    if r < 0.30:
-        return rng.choice(INT_AS_FLOAT)
-    if r < 0.45:
-        return struct.unpack('<d', struct.pack('<Q', rng.getrandbits(64)))[0]        # any binary64 pattern
-    if r < 0.60:
-        return struct.unpack('<f', struct.pack('<I', rng.getrandbits(32)))[0]        # any binary32 pattern (exact)
-    if r < 0.70:
-        return rng.randint(-5, 5)
-    if r < 0.80:
-        return round(rng.uniform(-40, 40), rng.choice([0, 1, 2, 3]))
-    return rng.uniform(-10, 10)
+class Gen:
+    """draws arguments; `wild` raises the share of unrepresentable / ill-typed values (a case is mostly-valid otherwise)"""
 
+    def __init__(self, rng):
+        self.rng = rng
+        self.wild = 0.0
 
-def rfield(rng, lim=256):
-    r = rng.random()
-    if r < 0.5:
-        return rng.randrange(lim)
-    if r < 0.8:
-        return rng.choice(INT_FIELD)
-    if r < 0.85:
-        return rng.choice([1.0, 0.0, 2.5, float('nan')])
-    if r < 0.93:
-        return rng.choice([True, False])
-    return rng.randrange(-3, 2 ** 33)
+    def case(self):
+        r = self.rng.random()
+        self.wild = 0.0 if r < 0.55 else 0.04 if r < 0.85 else 0.35
 
+    def ver(self):
+        return self.rng.choice(VERSIONS) if self.rng.random() < 0.8 else self.rng.randrange(-1, 40)
 
-def rbool(rng):
-    r = rng.random()
-    if r < 0.8:
-        return rng.choice([True, False])
-    return rfield(rng)
+    def flt(self):
+        rng = self.rng
+        if rng.random() < self.wild:
+            return rng.choice(FLOAT_UNREP)
+        r = rng.random()
+        if r < 0.22:
+            return rng.choice(FLOAT_SPECIAL)
+        if r < 0.30:
+            return rng.choice(INT_AS_FLOAT)
+        if r < 0.40:
+            x = struct.unpack('<d', struct.pack('<Q', rng.getrandbits(64)))[0]        # any binary64 pattern
+            if x == x and abs(x) != float('inf') and abs(x) > F32_MAX and rng.random() >= self.wild:
+                x = x / 1e300 if abs(x) > 1e300 else x / abs(x)
+            return x
+        if r < 0.55:
+            return struct.unpack('<f', struct.pack('<I', rng.getrandbits(32)))[0]     # any binary32 pattern (exact)
+        if r < 0.65:
+            return rng.randint(-5, 5)
+        if r < 0.78:
+            return round(rng.uniform(-40, 40), rng.choice([0, 1, 2, 3]))
+        return rng.uniform(-10, 10)
 
+    def field(self, lim=256):
+        rng = self.rng
+        if rng.random() < self.wild:
+            return rng.choice([lim, lim + 1, -1, -lim, 2 ** 64, 1.0, 0.0, 2.5, float('nan')] + INT_FIELD_EDGE)
+        r = rng.random()
+        if r < 0.6:
+            return rng.randrange(lim)
+        if r < 0.8:
+            return rng.choice([0, 1, lim - 1, lim // 2, True, False])
+        return rng.choice([v for v in INT_FIELD_EDGE if 0 <= v < lim])
 
-def rver(rng):
-    return rng.choice(VERSIONS) if rng.random() < 0.8 else rng.randrange(-1, 40)
+    def flag(self):
+        if self.rng.random() < 0.85:
+            return self.rng.choice([True, False])
+        return self.field()
 
+    def thrust(self):
+        rng = self.rng
+        if rng.random() < max(self.wild, 0.1):
+            return rng.choice([65536, 65537, -1, -2, 2 ** 32, -2 ** 40, 0.0, 1000.0, 1000.5, 65535.0, 65535.5, 65536.0, -0.0, -1e-9, -1.0,
+                               float('nan'), float('inf'), float('-inf'), 1e300])
+        return rng.choice([0, 1, 10001, 60000, 65534, 65535, True]) if rng.random() < 0.3 else rng.randrange(0, 65536)
 
-# ---- one generator per emitting method: returns (model line, thunk on the real code) ------------------
-def g_setpoint(rng):
-    ver = rver(rng)
-    xm = rng.random() < 0.4
-    roll, pitch, yaw = rfloat(rng), rfloat(rng), rfloat(rng)
-    r = rng.random()
-    if r < 0.5:
-        thrust = rng.randrange(0, 65536)
-    elif r < 0.8:
-        thrust = rng.choice([0, 1, 10001, 60000, 65534, 65535, 65536, 65537, -1, -2, 2 ** 32, -2 ** 40, True])
-    else:
-        thrust = rng.choice([0.0, 1000.0, 1000.5, 65535.0, 65535.5, 65536.0, -0.0, -1e-9, -1.0, float('nan'), float('inf'), float('-inf'), 1e300])
-    try:
-        mr, mp = 0.707 * (roll - pitch), 0.707 * (roll + pitch)       # the x-mode double arithmetic (outside the model)
-    except OverflowError:
-        return None    # int too large to convert to float: the mix itself raises (double arithmetic, outside the model)
-    line = '%d setpoint %d %s %s %s %s %s %s' % (ver, xm, num(roll), num(pitch), num(mr), num(mp), num(yaw), num(thrust))
+    def vec(self):
+        rng = self.rng
+        if rng.random() < self.wild:
+            return [rng.choice([float('nan'), float('inf'), float('-inf'), 1e300, -1e300, 1e18, 4.5e15, 2 ** 70, 1.0, 32.768, -32.769, 33, -33, 40.0])
+                    for _ in range(3)]
+        r = rng.random()
+        if r < 0.6:
+            return [round(rng.uniform(-32.7, 32.7), rng.choice([1, 2, 3, 4, 9])) for _ in range(3)]
+        if r < 0.8:
+            return [rng.choice([32.767, 32.7679999, -32.768, -32.7689999, 32.7675, 0.0005, -0.0005, 0.001, 0.0009999, 1.0005, 0.0, -0.0, 32, -32,
+                                0, 1, 1e-320, 0.29, 0.57, 1.13, 8.2]) for _ in range(3)]
+        return [struct.unpack('<f', struct.pack('<I', rng.getrandbits(32) & 0xC1FFFFFF))[0] for _ in range(3)]   # |x| < 32
 
-    def real(cf):
-        cf.commander.set_client_xmode(xm)
-        cf.commander.send_setpoint(roll, pitch, yaw, thrust)
-    return ver, line, real, ('setpoint', xm, ver <= 8)
+    def quat(self):
+        rng = self.rng
+        if rng.random() < self.wild:
+            return [rng.choice([float('nan'), float('inf'), float('-inf'), 1e200, -1e200, 1e-200, -1e-200, 0.0, 1.0, 5e-324]) for _ in range(4)]
+        r = rng.random()
+        if r < 0.5:
+            return [rng.gauss(0, 1) for _ in range(4)]
+        if r < 0.7:
+            q = [rng.choice([0.0, -0.0, 1.0, -1.0, 0.5, -0.5, 0.7071067811865476, -0.7071067811865476, 0, 1, -1]) for _ in range(4)]
+            if not any(q):
+                q[rng.randrange(4)] = 1.0
+            return q
+        if r < 0.8:
+            q = [0.0] * 4
+            q[rng.randrange(4)] = rng.choice([1.0, -1.0, 2.0, -1e-3, 1, -1])
+            return q
+        a = rng.uniform(0.1, 1) * rng.choice([1, -1])
+        return [a, rng.choice([a, -a]), rng.choice([a, -a, 0.0]), rng.choice([a, -a, 0.0])]
 
-
-def g4(name, meth):
-    def g(rng):
-        ver = rver(rng)
-        a = [rfloat(rng) for _ in range(4)]
-        line = '%d %s %s' % (ver, name, ' '.join(num(x) for x in a))
-        return ver, line, (lambda cf: getattr(cf.commander, meth)(*a)), (name, ver <= 8)
-    return g
-
-
-def g_notify(rng):
-    ver = rver(rng)
-    ms = rfield(rng, 2 ** 32)
-    return ver, '%d notifyStop %s' % (ver, num(ms)), (lambda cf: cf.commander.send_notify_setpoint_stop(ms)), ('notifyStop',)
-
-
-def g_simple(name, fn):
-    def g(rng):
-        ver = rver(rng)
-        return ver, '%d %s' % (ver, name), fn, (name,)
-    return g
-
-
-def rvec(rng):
-    r = rng.random()
-    if r < 0.55:
-        return [round(rng.uniform(-33, 33), rng.choice([1, 2, 3, 4, 9])) for _ in range(3)]
-    if r < 0.7:
-        return [rng.choice([32.767, 32.768, 32.7679999, -32.768, -32.769, -32.7689999, 32.7675, 0.0005, -0.0005, 0.001, 0.0009999,
-                            1.0005, 0.0, -0.0, 32, -32, 33, -33, 0, 1, 1e-320]) for _ in range(3)]
-    if r < 0.8:
-        return [rng.choice([float('nan'), float('inf'), float('-inf'), 1e300, -1e300, 1e18, 4.5e15, 2 ** 70, 1.0]) for _ in range(3)]
-    return [rfloat(rng) for _ in range(3)]
-
-
-def rquat(rng):
-    r = rng.random()
-    if r < 0.5:
-        return [rng.gauss(0, 1) for _ in range(4)]
-    if r < 0.7:
-        q = [rng.choice([0.0, -0.0, 1.0, -1.0, 0.5, -0.5, 0.7071067811865476, -0.7071067811865476, 0, 1, -1]) for _ in range(4)]
-        return q
-    if r < 0.8:
-        q = [0.0] * 4
-        q[rng.randrange(4)] = rng.choice([1.0, -1.0, 2.0, -1e-3, 1, -1])
-        return q
-    if r < 0.9:
-        return [rng.choice([float('nan'), float('inf'), float('-inf'), 1e200, -1e200, 1e-200, -1e-200, 0.0, 1.0, 5e-324]) for _ in range(4)]
-    a = rng.uniform(-1, 1)
-    return [a, rng.choice([a, -a]), rng.choice([a, -a, 0.0]), rng.choice([a, -a, 0.0])]
-
-
-def g_fullstate(rng):
-    ver = rver(rng)
-    pos, vel, acc, rates = rvec(rng), rvec(rng), rvec(rng), rvec(rng)
-    quat = rquat(rng)
-    try:
-        line = '%d fullState %s %s %s %s %s' % (ver, vec3(pos), vec3(vel), vec3(acc), quat_oracle(quat), vec3(rates))
-    except OverflowError:
-        return None     # int * 1000 -> float overflow inside the double arithmetic (outside the model)
-
-    def real(cf):
-        cf.commander.send_full_state_setpoint(list(pos), list(vel), list(acc), list(quat), rates[0], rates[1], rates[2])
-    return ver, line, real, ('fullState',)
-
-
-def g_hl1(name, meth):
-    def g(rng):
-        ver = rver(rng)
-        gm = rfield(rng)
-        return ver, '%d %s %s' % (ver, name, num(gm)), (lambda cf: getattr(cf.high_level_commander, meth)(gm)), (name,)
-    return g
-
-
-def g_hl_takeoff(name, meth):
-    def g(rng):
-        ver = rver(rng)
-        h, d, gm = rfloat(rng), rfloat(rng), rfield(rng)
-        yaw = None if rng.random() < 0.3 else rfloat(rng)
-        line = '%d %s %s %s %s %s' % (ver, name, num(h), num(d), num(gm), optnum(yaw))
-        return ver, line, (lambda cf: getattr(cf.high_level_commander, meth)(h, d, group_mask=gm, yaw=yaw)), (name, yaw is None)
-    return g
-
-
-def g_hl_goto(rng):
-    ver = rver(rng)
-    x, y, z, yaw, d = (rfloat(rng) for _ in range(5))
-    rel, lin, gm = rbool(rng), rbool(rng), rfield(rng)
-    line = '%d hlGoTo %s' % (ver, ' '.join(num(v) for v in (x, y, z, yaw, d, rel, lin, gm)))
-    return ver, line, (lambda cf: cf.high_level_commander.go_to(x, y, z, yaw, d, relative=rel, linear=lin, group_mask=gm)), ('hlGoTo', ver < 8)
-
-
-def g_hl_spiral(rng):
-    ver = rver(rng)
-    r = rng.random()
-    if r < 0.5:
-        angle = rng.uniform(-8, 8)
-    elif r < 0.7:
-        angle = rng.choice([6.283185307179586, 6.283185307179587, 6.283185307179585, -6.283185307179586, -6.283185307179587, 6, 7, -6, -7,
-                            float('nan'), float('inf'), float('-inf'), 0.0])
-    else:
-        angle = rfloat(rng)
-    r0 = rng.choice([rng.uniform(-1, 2), rfloat(rng), 0.0, -0.0, -1, 0, 1, -5e-324, float('nan'), float('-inf')])
-    rf = rng.choice([rng.uniform(-1, 2), rfloat(rng), 0.0, -0.0, -1, 0, 1, -5e-324, float('nan'), float('-inf')])
-    asc, d = rfloat(rng), rfloat(rng)
-    sw, cw, gm = rbool(rng), rbool(rng), rfield(rng)
-    line = '%d hlSpiral %s' % (ver, ' '.join(num(v) for v in (angle, r0, rf, asc, d, sw, cw, gm)))
-    return ver, line, (lambda cf: cf.high_level_commander.spiral(angle, r0, rf, asc, d, sideways=sw, clockwise=cw, group_mask=gm)), ('hlSpiral', ver < 8)
-
-
-def g_hl_start(rng):
-    ver = rver(rng)
-    tid, ts, rel, rev, gm = rfield(rng), rfloat(rng), rbool(rng), rbool(rng), rfield(rng)
-    line = '%d hlStartTraj %s' % (ver, ' '.join(num(v) for v in (tid, ts, rel, rev, gm)))
-    return ver, line, (lambda cf: cf.high_level_commander.start_trajectory(tid, ts, relative=rel, reversed=rev, group_mask=gm)), ('hlStartTraj',)
-
-
-def g_hl_define(rng):
-    ver = rver(rng)
-    tid, off, n, ty = rfield(rng), rfield(rng, 2 ** 32), rfield(rng), rng.choice([0, 1, 0, 1, rfield(rng)])
-    line = '%d hlDefineTraj %s' % (ver, ' '.join(num(v) for v in (tid, off, n, ty)))
-    return ver, line, (lambda cf: cf.high_level_commander.define_trajectory(tid, off, n, ty)), ('hlDefineTraj',)
-
-
-def g_extpos(name, wrap):
-    def g(rng):
-        ver = rver(rng)
-        a = [rfloat(rng) for _ in range(3)]
-        line = '%d %s %s' % (ver, name, ' '.join(num(v) for v in a))
-        if wrap:
-            return ver, line, (lambda cf: cf.extpos.send_extpos(*a)), (name,)
-        return ver, line, (lambda cf: cf.loc.send_extpos(list(a))), (name,)
-    return g
-
-
-def g_extpose(name, wrap):
-    def g(rng):
-        ver = rver(rng)
-        a = [rfloat(rng) for _ in range(7)]
-        line = '%d %s %s' % (ver, name, ' '.join(num(v) for v in a))
-        if wrap:
-            return ver, line, (lambda cf: cf.extpos.send_extpose(*a)), (name,)
-        return ver, line, (lambda cf: cf.loc.send_extpose(list(a[:3]), list(a[3:]))), (name,)
-    return g
-
-
-def g_shortlpp(rng):
-    ver = rver(rng)
-    dest = rfield(rng)
-    data = bytes(rng.randrange(256) for _ in range(rng.choice([0, 1, 2, 5, 13, 27, 28, 29, 30, 40])))
-    kind = rng.choice([bytes, bytearray])
-    line = '%d shortLpp %s %s' % (ver, num(dest), hexs(data))
-    return ver, line, (lambda cf: cf.loc.send_short_lpp_packet(dest, kind(data))), ('shortLpp', len(data) > 28)
-
-
-def rbslist(rng):
-    r = rng.random()
-    if r < 0.15:
-        return []
-    if r < 0.7:
-        return rng.sample(range(16), rng.randrange(1, 17))
-    if r < 0.8:
+    def bslist(self):
+        rng = self.rng
+        if rng.random() < self.wild:
+            return [rng.choice([-1, 0, 1, 14, 15, 16, 17, -5, 100]) for _ in range(rng.randrange(1, 4))]
+        r = rng.random()
+        if r < 0.15:
+            return []
+        if r < 0.85:
+            return rng.sample(range(16), rng.randrange(1, 17))
         return [rng.randrange(16) for _ in range(rng.randrange(1, 6))]          # may contain duplicates
-    return [rng.choice([-1, 0, 1, 14, 15, 16, 17, -5, 100]) for _ in range(rng.randrange(1, 4))]
+
+    def angle(self):
+        rng = self.rng
+        r = rng.random()
+        if r < 0.5:
+            return rng.uniform(-8, 8)
+        if r < 0.75:
+            return rng.choice([6.283185307179586, 6.283185307179587, 6.283185307179585, -6.283185307179586, -6.283185307179587, 6, 7, -6, -7,
+                               float('nan'), float('inf'), float('-inf'), 0.0, 1e300, -1e300])
+        return self.flt()
+
+    def radius(self):
+        rng = self.rng
+        return rng.choice([rng.uniform(-1, 2), rng.uniform(0, 2), self.flt(), 0.0, -0.0, -1, 0, 1, -5e-324, float('nan'), float('-inf'), -1e300])
 
 
-def g_lhpersist(rng):
-    ver = rver(rng)
-    geo, cal = rbslist(rng), rbslist(rng)
-    line = '%d lhPersist %s %s' % (ver, intlist(geo), intlist(cal))
-    return ver, line, (lambda cf: cf.loc.send_lh_persist_data_packet(list(geo), list(cal))), ('lhPersist', len(set(geo)) < len(geo) or len(set(cal)) < len(cal))
+def gen_call(g, name):
+    """python arguments of one call of the named method"""
+    rng = g.rng
+    if name == 'setpoint':
+        return (rng.random() < 0.4, g.flt(), g.flt(), g.flt(), g.thrust())
+    if name == 'notifyStop':
+        return (g.field(2 ** 32),)
+    if name in ('stopSetpoint', 'emergencyStop', 'emergencyWatchdog', 'crashRecovery'):
+        return ()
+    if name in ('velocityWorld', 'zdistance', 'hover', 'position'):
+        return tuple(g.flt() for _ in range(4))
+    if name == 'fullState':
+        return (g.vec(), g.vec(), g.vec(), g.quat(), g.vec())
+    if name in ('hlGroupMask', 'hlStop'):
+        return (g.field(),)
+    if name in ('hlTakeoff', 'hlLand'):
+        return (g.flt(), g.flt(), g.field(), None if rng.random() < 0.3 else g.flt())
+    if name == 'hlGoTo':
+        return tuple(g.flt() for _ in range(5)) + (g.flag(), g.flag(), g.field())
+    if name == 'hlSpiral':
+        return (g.angle(), g.radius(), g.radius(), g.flt(), g.flt(), g.flag(), g.flag(), g.field())
+    if name == 'hlStartTraj':
+        return (g.field(), g.flt(), g.flag(), g.flag(), g.field())
+    if name == 'hlDefineTraj':
+        return (g.field(), g.field(2 ** 32), g.field(), rng.choice([0, 1, 0, 1, g.field()]))
+    if name in ('extpos', 'extposWrap'):
+        return tuple(g.flt() for _ in range(3))
+    if name in ('extpose', 'extposeWrap'):
+        return tuple(g.flt() for _ in range(7))
+    if name == 'shortLpp':
+        data = bytes(rng.randrange(256) for _ in range(rng.choice([0, 1, 2, 5, 13, 27, 28, 28, 29, 30, 40] if g.wild else [0, 1, 2, 5, 13, 27, 28])))
+        return (g.field(), rng.choice([bytes, bytearray])(data))
+    if name == 'lhPersist':
+        return (g.bslist(), g.bslist())
+    if name in ('contWave', 'arming'):
+        return (g.flag(),)
+    if name == 'lopoPosition':
+        return (g.field(), g.flt(), g.flt(), g.flt())
+    if name in ('lopoReboot', 'lopoMode'):
+        return (g.field(), rng.choice([0, 1, 2, 3, g.field()]))
+    raise KeyError(name)
 
 
-def g_plat(name, meth):
-    def g(rng):
-        ver = rver(rng)
-        v = rbool(rng)
-        return ver, '%d %s %s' % (ver, name, num(v)), (lambda cf: getattr(cf.platform, meth)(v)), (name,)
-    return g
+WEIGHTS = [('setpoint', 6), ('notifyStop', 2), ('stopSetpoint', 0.2), ('velocityWorld', 4), ('zdistance', 4), ('hover', 4), ('fullState', 8),
+           ('position', 3), ('hlGroupMask', 1), ('hlTakeoff', 3), ('hlLand', 3), ('hlStop', 1), ('hlGoTo', 4), ('hlSpiral', 5), ('hlStartTraj', 3),
+           ('hlDefineTraj', 3), ('extpos', 2), ('extposWrap', 1), ('extpose', 2), ('extposeWrap', 1), ('shortLpp', 3), ('emergencyStop', 0.2),
+           ('emergencyWatchdog', 0.2), ('lhPersist', 4), ('contWave', 1), ('arming', 1), ('crashRecovery', 0.2), ('lopoPosition', 2),
+           ('lopoReboot', 1), ('lopoMode', 1)]
 
 
-def g_lopo_pos(rng):
-    ver = rver(rng)
-    aid = rfield(rng)
-    a = [rfloat(rng) for _ in range(3)]
-    line = '%d lopoPosition %s %s' % (ver, num(aid), ' '.join(num(v) for v in a))
-    return ver, line, (lambda cf: cf.lopo.set_position(aid, list(a))), ('lopoPosition',)
-
-
-def g_lopo2(name, meth):
-    def g(rng):
-        ver = rver(rng)
-        aid, mode = rfield(rng), rng.choice([0, 1, 2, 3, rfield(rng)])
-        line = '%d %s %s %s' % (ver, name, num(aid), num(mode))
-        return ver, line, (lambda cf: getattr(cf.lopo, meth)(aid, mode)), (name,)
-    return g
-
-
-GENERATORS = [
-    ('setpoint', g_setpoint, 6), ('notifyStop', g_notify, 2),
-    ('stopSetpoint', g_simple('stopSetpoint', lambda cf: cf.commander.send_stop_setpoint()), 0.2),
-    ('velocityWorld', g4('velocityWorld', 'send_velocity_world_setpoint'), 4), ('zdistance', g4('zdistance', 'send_zdistance_setpoint'), 4),
-    ('hover', g4('hover', 'send_hover_setpoint'), 4), ('fullState', g_fullstate, 8), ('position', g4('position', 'send_position_setpoint'), 3),
-    ('hlGroupMask', g_hl1('hlGroupMask', 'set_group_mask'), 1), ('hlTakeoff', g_hl_takeoff('hlTakeoff', 'takeoff'), 3),
-    ('hlLand', g_hl_takeoff('hlLand', 'land'), 3), ('hlStop', g_hl1('hlStop', 'stop'), 1), ('hlGoTo', g_hl_goto, 4), ('hlSpiral', g_hl_spiral, 5),
-    ('hlStartTraj', g_hl_start, 3), ('hlDefineTraj', g_hl_define, 3),
-    ('extpos', g_extpos('extpos', False), 2), ('extposWrap', g_extpos('extposWrap', True), 1),
-    ('extpose', g_extpose('extpose', False), 2), ('extposeWrap', g_extpose('extposeWrap', True), 1),
-    ('shortLpp', g_shortlpp, 3),
-    ('emergencyStop', g_simple('emergencyStop', lambda cf: cf.loc.send_emergency_stop()), 0.2),
-    ('emergencyWatchdog', g_simple('emergencyWatchdog', lambda cf: cf.loc.send_emergency_stop_watchdog()), 0.2),
-    ('lhPersist', g_lhpersist, 4), ('contWave', g_plat('contWave', 'set_continous_wave'), 1), ('arming', g_plat('arming', 'send_arming_request'), 1),
-    ('crashRecovery', g_simple('crashRecovery', lambda cf: cf.platform.send_crash_recovery_request()), 0.2),
-    ('lopoPosition', g_lopo_pos, 2), ('lopoReboot', g_lopo2('lopoReboot', 'reboot'), 1), ('lopoMode', g_lopo2('lopoMode', 'set_mode'), 1),
-]
-
-
-def gen_cases(ctx):
-    rng = ctx.rng
-    base = 60 if ctx.tier == 'quick' else 600
+def gen_cases(ctx, base):
+    """[(name, ver, args, model line)]"""
+    g = Gen(ctx.rng)
     cases = []
-    for name, g, w in GENERATORS:
+    for name, w in WEIGHTS:
         n = max(3, int(base * w))
-        made = 0
-        tries = 0
+        made = tries = 0
         while made < n and tries < 4 * n:
             tries += 1
-            c = g(rng)
-            if c is None:
-                ctx.count('skipped:double-arithmetic-raises')
+            g.case()
+            ver = g.ver()
+            a = gen_call(g, name)
+            try:
+                line = model_line(ver, name, a)
+            except OverflowError:
+                ctx.count('skipped:double-arithmetic-raises')      # huge int in the x-mode mix / x*1000: outside the model
                 continue
             made += 1
-            cases.append((name,) + c)
+            cases.append((name, ver, a, line))
     return cases
 
 
+def _eval_args(text):
+    """arguments are stored as their Python repr (nan / inf / bytes literals included)"""
+    return eval(text, {'__builtins__': {}}, {'nan': float('nan'), 'inf': float('inf'), 'bytearray': bytearray})
+
+
+def corpus_cases():
+    """harness/corpus/c08/*.json: {"cases": [{"name": method, "ver": protocol version, "args": "<python repr of the argument tuple>"}]}"""
+    import glob
+    import json
+    import os
+    out = []
+    for f in sorted(glob.glob(os.path.join(os.path.dirname(os.path.dirname(os.path.abspath(__file__))), 'corpus', 'c08', '*.json'))):
+        for e in json.load(open(f)).get('cases', []):
+            out.append((e['name'], int(e['ver']), _eval_args(e['args'])))
+    return out
+
+
 def correspond(ctx):
-    cases = gen_cases(ctx)
-    replies = ctx.lean(DRIVER, [c[2] for c in cases])
-    for (name, ver, line, real, key), model in zip(cases, replies):
-        got = run_real(ver, real)
+    cases = []
+    for name, ver, a in corpus_cases():
+        cases.append((name, ver, a, model_line(ver, name, a)))
+    cases += gen_cases(ctx, 60 if ctx.tier == 'quick' else 700)
+    replies = ctx.lean(DRIVER, [c[3] for c in cases])
+    packets = []
+    for (name, ver, a, line), model in zip(cases, replies):
+        r = run_real(ver, call_real(name, a))
+        got = show_real(r)
         ctx.count('op:' + name)
         ctx.count('result:' + (got.split(' ')[0] if got.startswith('ok') else got))
         if got == 'ok -':
             ctx.count('result:nothing-sent')
+        ctx.count('version:' + ('<8' if ver < 8 else '8' if ver == 8 else '>8'))
         ctx.case({'line': line[:200]}, (name, line))
         if got != model:
             ctx.disagree(name, line[:400], model[:300], got[:300])
+        if r[0] == 'ok':
+            packets += [(ver, h, d) for h, d in r[1]]
+    # the Python twin of the firmware decoder (used by search) against Spec/C08.lean: on every packet sent above, on
+    # the same packets under other protocol versions, truncated / extended / with another header, and on random packets
+    rng = ctx.rng
+    probes = []
+    for ver, h, d in packets:
+        probes.append((ver, h, d))
+        r = rng.random()
+        if r < 0.25:
+            probes.append((rng.choice(VERSIONS), h, d))
+        elif r < 0.4:
+            probes.append((ver, h, d[:rng.randrange(len(d) + 1)]))
+        elif r < 0.5:
+            probes.append((ver, h, d + bytes([rng.randrange(256)])))
+        elif r < 0.6:
+            probes.append((ver, rng.randrange(256), d))
+        elif r < 0.7 and d:
+            probes.append((ver, h, bytes([rng.randrange(16)]) + d[1:]))
+    for _ in range(300 if ctx.tier == 'quick' else 3000):
+        probes.append((rng.choice(VERSIONS), rng.choice([0x3C, 0x7C, 0x7D, 0x8C, 0x6C, 0x6D, 0xDC, rng.randrange(256)]),
+                       bytes([rng.randrange(16)]) + bytes(rng.randrange(256) for _ in range(rng.choice([0, 1, 2, 4, 8, 12, 13, 14, 16, 22, 23, 28, 29])))))
+    lines = ['fwdecode %d %d %s' % (v, h, hexs(d)) for v, h, d in probes]
+    lpps = [d[2:] for _, h, d in probes if (h >> 4, h & 3) == (6, 1) and len(d) >= 2 and d[0] == 2]
+    lines += ['lppdecode %s' % hexs(p) for p in lpps]
+    rep = ctx.lean(DRIVER, lines)
+    for (v, h, d), m in zip(probes, rep):
+        tw = 'ok ' + fw_decode(v, h, d)
+        ctx.count('spec-twin:' + ('none' if tw == 'ok none' else tw.split(' ')[1]))
+        ctx.case({'fwdecode': [v, h, d.hex()]}, ('fw', v, h, d))
+        if tw != m:
+            ctx.disagree('firmware-decoder-twin', 'fwdecode %d %d %s' % (v, h, hexs(d)), m[:300], tw[:300])
+    for p, m in zip(lpps, rep[len(probes):]):
+        tw = 'ok ' + lpp_decode(p)
+        ctx.count('spec-twin:lpp')
+        if tw != m:
+            ctx.disagree('anchor-decoder-twin', 'lppdecode ' + hexs(p), m[:300], tw[:300])
+
+
+# ---------------------------------------------------------------------------------------------------
+# failing-input search: the property itself, evaluated on the real code's packets with the Python spec twins
+def judge(ctx, name, ver, a):
+    """evaluate the property on one call of the real code"""
+    r = run_real(ver, call_real(name, a))
+    desc = {'method': name, 'version': ver, 'args': repr(a)}
+    ctx.evaluations += 1
+    if r[0] == 'err' and (r[1].startswith('lock-leaked') or r[1].startswith('after-send')):
+        ctx.witness('raise-' + r[1].split(':')[0], 'exception raised after the packet was handed to the link / with the send lock held', desc, got=r[1])
+        return
+    pk = r[1] if r[0] == 'ok' else None
+    if pk is not None:
+        if len(pk) > 1:
+            ctx.witness('multiple-packets:' + name, 'one call handed several packets to the link', desc, got=show_real(r))
+            return
+        for h, d in pk:
+            if len(d) > 30:
+                ctx.witness('oversize:' + name, 'payload larger than 30 bytes handed to the link', desc, got=show_real(r))
+                return
+    dec = None
+    if pk:
+        dec = fw_decode(ver, pk[0][0], pk[0][1])
+    if name == 'fullState':
+        res = expected_fullstate_check(a, dec)
+        if res == 'unrep':
+            if pk and all(isinstance(x, float) and x == x and abs(x) != float('inf') for x in a[3]) and 1e-200 < sum(x * x for x in a[3]) < 1e200:
+                ctx.witness('sent-unrepresentable:fullState', 'full-state packet sent although a fixed-point component does not fit int16',
+                            desc, got=show_real(r), decoded=dec)
+            return
+        if res is not None:
+            ctx.witness('decode-mismatch:fullState', 'full-state packet does not decode to the arguments: ' + res, desc, got=show_real(r), decoded=dec)
+        return
+    try:
+        want = expected(ver, name, a)
+    except Unrep as e:
+        if pk:
+            ctx.witness('sent-unrepresentable:' + name, 'packet sent although an argument is not representable (%s)' % e, desc,
+                        got=show_real(r), decoded=dec)
+        return
+    except OverflowError:
+        return           # huge int in the x-mode mix: outside the property
+    if want == 'nothing':
+        if pk:
+            ctx.witness('sent-unsupported:' + name, 'packet sent for a command the protocol version does not support', desc, got=show_real(r))
+        return
+    if pk is None or not pk:
+        ctx.witness('valid-arguments-not-sent:' + name, 'representable arguments, but the call %s' % ('raised ' + r[1] if r[0] == 'err' else 'sent nothing'),
+                    desc, want=want)
+        return
+    if ' LPP ' in want:
+        w0, w1 = want.split(' LPP ')
+        ok = dec.startswith(w0 + ' ') and lpp_decode(bytes.fromhex(dec.split(' ')[2].replace('-', ''))) == w1
+    else:
+        ok = dec == want
+    if not ok:
+        key = 'decode-mismatch:' + name
+        if name == 'lhPersist' and (len(set(a[0])) < len(a[0]) or len(set(a[1])) < len(a[1])):
+            key = 'D17-lh-persist-duplicate-id'
+        ctx.witness(key, 'the packet does not decode, under the firmware layout for this protocol version, to the arguments of the call',
+                    desc, got=show_real(r), decoded=dec, want=want)
 
 
 def search(ctx):
-    pass
+    from cflib.crtp.crtpstack import CRTPPacket
+    # (1) header byte: lossless for every port and channel, through every way the code sets them
+    for port in range(16):
+        for chan in range(4):
+            hs = []
+            pk = CRTPPacket()
+            pk.port = port
+            pk.channel = chan
+            hs.append(pk.header)
+            pk = CRTPPacket()
+            pk.channel = chan
+            pk.port = port
+            hs.append(pk.header)
+            pk = CRTPPacket()
+            pk.set_header(port, chan)
+            hs.append(pk.header)
+            hs.append(pk.get_header())
+            for h in hs:
+                ctx.evaluations += 1
+                if not (0 <= h < 256 and (h >> 4) == port and (h & 3) == chan and (h >> 2) & 3 == 3):
+                    ctx.witness('header-lossy', 'header byte does not encode port and channel losslessly', {'port': port, 'channel': chan}, got=h)
+            q = CRTPPacket(hs[0])
+            if (q.port, q.channel) != (port, chan):
+                ctx.witness('header-lossy', 'port/channel not recovered from the header byte', {'port': port, 'channel': chan}, got=(q.port, q.channel))
+    # (2) committed witnesses and boundary tables
+    for name, ver, a in corpus_cases():
+        judge(ctx, name, ver, a)
+    judge(ctx, 'lhPersist', 10, ([1, 1], []))                 # D17: duplicate id carries into the next bit
+    judge(ctx, 'lhPersist', 10, ([], [3, 7, 3]))
+    for t in (-1, 0, 1, 65535, 65536, 1000.0, -0.0, float('nan')):
+        for xm in (False, True):
+            judge(ctx, 'setpoint', 10, (xm, 1.5, -2.5, 30.0, t))
+    for ver in (-1, 0, 7, 8, 9, 10):
+        for yr in (0, 0.0, -0.0, 1, 25.5, float('inf'), -float('nan')):
+            for nm in ('velocityWorld', 'zdistance', 'hover'):
+                judge(ctx, nm, ver, (0.25, -0.5, yr if nm != 'velocityWorld' else 0.75, 0.4 if nm != 'velocityWorld' else yr))
+        for rel in (False, True, 0, 1, 2):
+            for lin in (False, True, 0, 1):
+                judge(ctx, 'hlGoTo', ver, (1.0, -2.0, 0.5, 3.0, 2.5, rel, lin, 0))
+        for rel in (False, True):
+            for rev in (False, True):
+                judge(ctx, 'hlStartTraj', ver, (3, 1.0, rel, rev, 0))
+        for sw in (False, True):
+            for cw in (False, True):
+                for ang in (7.0, -7.0, 1.0):
+                    judge(ctx, 'hlSpiral', ver, (ang, -1.0, 0.5, 0.2, 2.0, sw, cw, 0))
+        for yaw in (None, 0.0, 1.0):
+            judge(ctx, 'hlTakeoff', ver, (1.0, 2.0, 0, yaw))
+            judge(ctx, 'hlLand', ver, (0.0, 2.0, 0, yaw))
+    for v in (32.767, 32.768, -32.768, -32.769, 1e9, float('nan')):
+        judge(ctx, 'fullState', 10, ([v, 0.0, 0.0], [0.0, v, 0.0], [0.0, 0.0, 0.0], [0.0, 0.0, 0.0, 1.0], [0.0, 0.0, 0.0]))
+    for b in range(-1, 18):
+        judge(ctx, 'lhPersist', 10, ([b], []))
+        judge(ctx, 'lhPersist', 10, ([], [0, b]))
+    for n in (27, 28, 29, 30, 31):
+        judge(ctx, 'shortLpp', 10, (5, bytes(range(n))))
+    # (3) generated calls
+    for name, ver, a, _ in gen_cases(ctx, 25 if ctx.tier == 'quick' else 300):
+        judge(ctx, name, ver, a)
+
+
+def replay(ctx, rp):
+    """./check C08 --replay <file>: re-evaluate the recorded call on the current tree; True iff it still violates the property"""
+    w = rp.get('witness') or {}
+    inp = w.get('input') or {}
+    if 'method' in inp:
+        judge(ctx, inp['method'], int(inp['version']), _eval_args(inp['args']))
+        for x in ctx.witnesses:
+            print('VIOLATED [%s] %s: got %s, decoded %s, wanted %s' % (x['key'], x['what'], x.get('got'), x.get('decoded'), x.get('want')))
+        return bool(ctx.witnesses)
+    if rp.get('kind') == 'no-failing-input-found':
+        import json
+        print('replay: this file names broken obligations, not an input; run ./check C08 to re-check them')
+        print(json.dumps(rp.get('broken', []), indent=1)[:3000])
+        return False
+    search(ctx)
+    return any(x['key'] == w.get('key') for x in ctx.witnesses)
